@@ -88,7 +88,7 @@ type Op struct {
 	Knob     *Knobs `json:"knobs,omitempty"` // reopen with new knobs
 	Scrib    bool   `json:"scrib,omitempty"`
 	RO       bool   `json:"ro,omitempty"`
-	Keep     bool   `json:"keep,omitempty"` // iterator: keep open in slot after script
+	Keep     bool   `json:"keep,omitempty"`    // iterator: keep open in slot after script
 	Outlive  int    `json:"outlive,omitempty"` // tx: the kept iterator survives Commit/Discard in this DB-level slot
 	DontFill bool   `json:"dontfill,omitempty"`
 }
